@@ -228,6 +228,11 @@ def _run_tool(tool, path, out, pooled=True):
         from amr_kitchen import PlotfileCooker
         from amr_kitchen.combine import combine
         combine(PlotfileCooker(path), PlotfileCooker(path), vars1=["u"], vars2=["w"], pltout=out)
+        # ... and with its sibling "<name>_b": the same boxes in the same binary files, stored in another order inside them
+        # (combine then matches the boxes by their offsets and hands the file names to its workers as typed)
+        if os.path.isdir(path.rstrip(os.sep) + "_b"):
+            combine(PlotfileCooker(path), PlotfileCooker(path.rstrip(os.sep) + "_b"), vars1=["v"], vars2=["w"], pltout=out + "_b")
+            return [alpha.tree_digest(out), alpha.tree_digest(out + "_b")]
         return alpha.tree_digest(out)
     if tool == "chk2plt":
         from amr_kitchen.chk2plt import chk2plt
@@ -264,6 +269,15 @@ def run_tool_history(chk, sc, cfgseed, tool):
             gamma_chk.write_checkpoint(os.path.join(dirs[dn], NAME), mesh, lays, cfg, ns=2, nghost=1)
             continue
         gamma.write_plotfile(os.path.join(dirs[dn], NAME), ap, cfg)
+        if tool == "combine":
+            import copy
+            ap_b = copy.deepcopy(ap)
+            ap_b["src"] = "B"
+            for L in ap_b["levels"]:
+                L["disk"] = {f: list(reversed(v)) for f, v in L["disk"].items()}
+            cfg_b = copy.copy(cfg)
+            cfg_b.seed = cfg.seed + 7
+            gamma.write_plotfile(os.path.join(dirs[dn], NAME + "_b"), ap_b, cfg_b)
         if tool in ("taste", "taste-read") and i % 2 == 1:
             # every second directory holds a DAMAGED plotfile (a binary file 8 bytes short)
             l0 = os.path.join(dirs[dn], NAME, "Level_0")
